@@ -6,7 +6,7 @@
    DataLoader(batch_size=b, collate_fn=dataset.collate_fn) -- sequential if shuffle = None, in the order [perm]
    the random sampler produced if shuffle = Some perm; None = the code raises. *)
 From Coq Require Import List Arith Permutation.
-From RL4CO Require Import Data.Dataset.
+From RL4CO Require Import Data.Dataset Data.DatasetStore.
 Import ListNotations.
 
 (* ---- the batch sampler ---- *)
@@ -174,3 +174,107 @@ Example C17_nonvacuous :
               Some [mkTD 4 [(0, [13; 10; 14; 11]); (1, [23; 20; 24; 21]); (9, [36; 30; 38; 32])];
                     mkTD 1 [(0, [12]); (1, [22]); (9, [34])]].
 Proof. repeat split. intros []; reflexivity. Qed.
+
+(* ---- the records of a TensorDictDataset are SHARED (and written) by every ExtraKeyDataset built on it ----
+   Vocabulary (Data/DatasetStore.v): a [store] = the shared list of per-instance records [st_heap] + the wrappers made
+   so far [st_wrappers]; events [EWrap key extra] (ds.add_key), [EWrapPol key polB bb] (RolloutBaseline.wrap_dataset:
+   rollout of polB over the BASE dataset with batch size bb, then add_key), [EGet w i] (wrapper_w[i]),
+   [EPass w b shuffle] (a DataLoader pass through wrapper w), [EBasePass b shuffle]; [run_state d s evs] = the state
+   after the history evs, None if some event raises; discipline [Assign] = "data[key] = extra[idx]" (the code),
+   [SetDefault] = "data.setdefault(key, extra[idx])"; [sk_getitem d e h i] = ExtraKeyDataset.__getitem__ of wrapper
+   e on records h; [D_sk d e] = that wrapper as a dataset for [dataloader]. *)
+
+(* the Assign discipline is the ExtraKeyDataset model of Data/Dataset.v that the loader correspondence ties to the code *)
+Theorem C17_store_assign_is_dataset_model :
+  forall (K V : Type) (K_eqb : K -> K -> bool) (dV : V) (e : ekds) (h : heap) (b : nat) (shuffle : option (list nat)),
+    dataloader (D_sk K_eqb dV Assign e) h b shuffle = dataloader (D_ekl K_eqb dV e) h b shuffle.
+Proof. exact (@dataloader_sk_assign_eq). Qed.
+Print Assumptions C17_store_assign_is_dataset_model.
+
+(* ANY history [pre] (wrappings with other extras, reads through any wrapper, in any order), then a wrapping with
+   [extra], then ANY history [post]: the wrapper made in the middle holds [extra], a single read of index i through it
+   returns instance i untouched followed by (kx, extra[i]), and a loader pass through it (any batch size, sequential
+   or any permutation) emits at sampler position p instance p untouched followed by (kx, extra[p]) *)
+Theorem C17_store_assign_history :
+  forall (K V : Type) (K_eqb : K -> K -> bool), (forall a b : K, K_eqb a b = true <-> a = b) ->
+  forall (dV : V) (t : td) (kx : K), td_wfb K_eqb t = true ->
+  forall (pre : list event) (extra : list V) (post : list event) (s0 s : store),
+    ~ In kx (td_keys t) -> Forall (ev_key_ok kx) pre -> Forall (ev_key_ok kx) post ->
+    run_state K_eqb dV Assign (store_init dV t) pre = Some s0 ->
+    run_state K_eqb dV Assign s0 (EWrap kx extra :: post) = Some s ->
+    exists e : ekds,
+      nth_error (st_wrappers s) (length (st_wrappers s0)) = Some e /\ ek_extra e = extra /\
+      (forall i, i < bsz t -> exists h' : heap,
+         sk_getitem K_eqb Assign e (st_heap s) i = Some (row_at dV t i ++ [(kx, nth i extra dV)], h')) /\
+      (forall (b : nat) (shuffle : option (list nat)), 1 <= b -> shuffle_ok (bsz t) shuffle ->
+         exists (batches : list td) (h' : heap),
+           dataloader (D_sk K_eqb dV Assign e) (st_heap s) b shuffle = Some (batches, h') /\
+           map (rows dV) batches
+             = map (map (fun p => row_at dV t p ++ [(kx, nth p extra dV)])) (chunks b (order_of (bsz t) shuffle)) /\
+           map bsz batches = map (@length nat) (chunks b (order_of (bsz t) shuffle))).
+Proof. exact (@store_assign_history). Qed.
+Print Assumptions C17_store_assign_history.
+
+(* the same for a wrapper made by RolloutBaseline.wrap_dataset in the middle of any history: the rollout reads the
+   base dataset whose records may already carry earlier baselines' values; for a row-wise policy that does not look
+   at the extra key the attached value of instance p is pol(instance p) -- the CURRENT policy's, whatever was
+   attached and read before or is attached and read afterwards *)
+Theorem C17_store_assign_rollout_history :
+  forall (K V : Type) (K_eqb : K -> K -> bool), (forall a b : K, K_eqb a b = true <-> a = b) ->
+  forall (dV : V) (t : td) (kx : K), td_wfb K_eqb t = true ->
+  forall (polB : td -> list V) (pol : item -> V),
+    (forall t' : td, polB t' = map pol (rows dV t')) ->
+    (forall (it : item) (v : V), pol (aset K_eqb kx v it) = pol it) ->
+    ~ In kx (td_keys t) ->
+  forall (pre : list event) (bb : nat) (post : list event) (s0 s : store),
+    Forall (ev_key_ok kx) pre -> Forall (ev_key_ok kx) post ->
+    run_state K_eqb dV Assign (store_init dV t) pre = Some s0 ->
+    run_state K_eqb dV Assign s0 (EWrapPol kx polB bb :: post) = Some s ->
+    exists e : ekds,
+      nth_error (st_wrappers s) (length (st_wrappers s0)) = Some e /\ ek_extra e = map pol (rows dV t) /\
+      (forall i, i < bsz t -> exists h' : heap,
+         sk_getitem K_eqb Assign e (st_heap s) i = Some (row_at dV t i ++ [(kx, pol (row_at dV t i))], h')) /\
+      (forall (b : nat) (shuffle : option (list nat)), 1 <= b -> shuffle_ok (bsz t) shuffle ->
+         exists (batches : list td) (h' : heap),
+           dataloader (D_sk K_eqb dV Assign e) (st_heap s) b shuffle = Some (batches, h') /\
+           map (rows dV) batches
+             = map (map (fun p => row_at dV t p ++ [(kx, pol (row_at dV t p))])) (chunks b (order_of (bsz t) shuffle)) /\
+           map bsz batches = map (@length nat) (chunks b (order_of (bsz t) shuffle))).
+Proof. exact (@store_assign_rollout_history). Qed.
+Print Assumptions C17_store_assign_rollout_history.
+
+(* the hypotheses "run_state ... = Some _" are satisfiable by every history of right-length wrappings, reads of
+   existing wrappers at valid indices and loader passes with b >= 1 and a genuine permutation: none of them raises *)
+Theorem C17_store_assign_history_total :
+  forall (K V : Type) (K_eqb : K -> K -> bool), (forall a b : K, K_eqb a b = true <-> a = b) ->
+  forall (dV : V) (t : td) (kx : K) (evs : list event),
+    td_wfb K_eqb t = true -> Forall (ev_key_ok kx) evs -> hist_okb (bsz t) 0 evs = true ->
+    exists s' : store, run_state K_eqb dV Assign (store_init dV t) evs = Some s'.
+Proof. exact (@run_total_init). Qed.
+Print Assumptions C17_store_assign_history_total.
+
+(* REFUTED for the setdefault discipline: wrap with [70..74], one epoch, wrap again with [90..94] -- the second wrapper
+   holds [90..94], the loader emits [70..74] *)
+Theorem C17_store_setdefault_refuted :
+  exists (pre post : list (@event nat nat)) (s0 s : store) (e : ekds) (ts : list td) (h' : heap),
+    td_wfb Nat.eqb ex_td = true /\ ~ In 9 (td_keys ex_td) /\
+    Forall (ev_key_ok 9) pre /\ Forall (ev_key_ok 9) post /\
+    run_state Nat.eqb 0 SetDefault (store_init 0 ex_td) pre = Some s0 /\
+    run_state Nat.eqb 0 SetDefault s0 (EWrap 9 ex_extra2 :: post) = Some s /\
+    nth_error (st_wrappers s) (length (st_wrappers s0)) = Some e /\ ek_extra e = ex_extra2 /\
+    dataloader (D_sk Nat.eqb 0 SetDefault e) (st_heap s) 5 None = Some (ts, h') /\
+    ts = [mkTD 5 [(0, [10; 11; 12; 13; 14]); (1, [20; 21; 22; 23; 24]); (9, ex_extra)]] /\
+    map (rows 0) ts <> map (map (fun p => row_at 0 ex_td p ++ [(9, nth p ex_extra2 0)])) (chunks 5 (seq 0 5)).
+Proof. exact setdefault_refuted. Qed.
+Print Assumptions C17_store_setdefault_refuted.
+
+(* non-vacuity: a history with three wrappings, full / shuffled / single reads through old and new wrappers satisfies
+   every hypothesis of C17_store_assign_history; two row-wise policies that ignore key 9 *)
+Example C17_store_nonvacuous :
+  (~ In 9 (td_keys ex_td) /\ Forall (ev_key_ok 9) ex_pre /\ Forall (ev_key_ok 9) ex_post /\
+   hist_okb (bsz ex_td) 0 (ex_pre ++ EWrap 9 ex_extra2 :: ex_post) = true) /\
+  (exists s, run_state Nat.eqb 0 Assign (store_init 0 ex_td) (ex_pre ++ EWrap 9 ex_extra2 :: ex_post) = Some s /\
+             map (getd Nat.eqb 0 9) (st_heap s) = [50; 91; 92; 53; 74]) /\
+  ((forall t', ex_polB2 t' = map ex_pol2 (rows 0 t')) /\ (forall t', ex_polB3 t' = map ex_pol3 (rows 0 t')) /\
+   (forall it v, ex_pol2 (aset Nat.eqb 9 v it) = ex_pol2 it) /\ (forall it v, ex_pol3 (aset Nat.eqb 9 v it) = ex_pol3 it)).
+Proof. split; [exact ex_history_hyps|]. split; [exact ex_store_mixed_records|exact ex_pol_hyps]. Qed.
